@@ -11,7 +11,7 @@ import sys
 import time
 
 VERIF = os.path.dirname(os.path.dirname(os.path.abspath(__file__)))
-REPO = "/repo"
+REPO = os.environ.get("VERIF_REPO", "/repo")   # tooling only (seeded changes in a scratch worktree); the registered checks use /repo
 CACHE = os.path.join(VERIF, ".cache")
 COQ = os.path.join(VERIF, "coq")
 Q = 0x73EDA753299D7D483339D80809A1D80553BDA402FFFE5BFEFFFFFFFF00000001
@@ -115,19 +115,41 @@ class BuildError(Exception):
 
 
 def build_harness(profile="fastdebug"):
-    """(Re)build the adaptor against /repo's current working tree. Returns the binary path."""
-    hdir = os.path.join(VERIF, "harness")
-    env = dict(os.environ, CARGO_NET_OFFLINE="true", CARGO_TARGET_DIR=os.path.join(CACHE, "target"))
-    with Lock("cargo"):
-        lock = os.path.join(hdir, "Cargo.lock")
-        if not os.path.exists(lock):
-            shutil.copy(os.path.join(REPO, "Cargo.lock"), lock)
-        cmd = ["cargo", "build", "--offline", "--profile", profile]
-        p = subprocess.run(cmd, cwd=hdir, env=env, stdout=subprocess.PIPE, stderr=subprocess.STDOUT, text=True,
-                           timeout=1800)
+    """(Re)build the adaptor against /repo's current working tree. Returns the binary path.
+    With VERIF_REPO set to another checkout (tools/try_seed.sh --worktree), a copy of the adaptor with its path dependencies
+    pointing there is built in a separate target directory and the binary is kept per checkout, so that several changed
+    trees can be checked side by side without touching /repo."""
+    env = dict(os.environ, CARGO_NET_OFFLINE="true")
+    cmd = ["cargo", "build", "--offline", "--profile", profile]
+    if REPO == "/repo":
+        hdir = os.path.join(VERIF, "harness")
+        env["CARGO_TARGET_DIR"] = os.path.join(CACHE, "target")
+        with Lock("cargo"):
+            lock = os.path.join(hdir, "Cargo.lock")
+            if not os.path.exists(lock):
+                shutil.copy(os.path.join(REPO, "Cargo.lock"), lock)
+            p = subprocess.run(cmd, cwd=hdir, env=env, stdout=subprocess.PIPE, stderr=subprocess.STDOUT, text=True,
+                               timeout=1800)
+            if p.returncode != 0:
+                raise BuildError(p.stdout[-4000:])
+        return os.path.join(CACHE, "target", profile, "verif-harness")
+    tag = hashlib.sha1(REPO.encode()).hexdigest()[:10]
+    hdir = os.path.join(CACHE, "alt", "harness_" + tag)
+    out = os.path.join(CACHE, "alt", "verif-harness-%s-%s" % (tag, profile))
+    env["CARGO_TARGET_DIR"] = os.path.join(CACHE, "target_alt")
+    with Lock("cargo_alt"):
+        os.makedirs(os.path.join(hdir, "src"), exist_ok=True)
+        for f in os.listdir(os.path.join(VERIF, "harness", "src")):
+            shutil.copy(os.path.join(VERIF, "harness", "src", f), os.path.join(hdir, "src", f))
+        toml = open(os.path.join(VERIF, "harness", "Cargo.toml")).read().replace('"/repo/', '"%s/' % REPO)
+        open(os.path.join(hdir, "Cargo.toml"), "w").write(toml)
+        resolved = os.path.join(VERIF, "harness", "Cargo.lock")
+        shutil.copy(resolved if os.path.exists(resolved) else os.path.join(REPO, "Cargo.lock"), os.path.join(hdir, "Cargo.lock"))
+        p = subprocess.run(cmd, cwd=hdir, env=env, stdout=subprocess.PIPE, stderr=subprocess.STDOUT, text=True, timeout=1800)
         if p.returncode != 0:
             raise BuildError(p.stdout[-4000:])
-    return os.path.join(CACHE, "target", profile, "verif-harness")
+        shutil.copy(os.path.join(CACHE, "target_alt", profile, "verif-harness"), out)
+    return out
 
 
 def build_coq(targets=None):
